@@ -20,7 +20,10 @@ pub use serde_json::{json, Value};
 /// Run `f`, converting a panic into an `Err(message)`.  The default panic hook is silenced while the
 /// closure runs only if `quiet_panics()` was called at start-up.
 pub fn catch<T>(f: impl FnOnce() -> T) -> Result<T, String> {
-    match std::panic::catch_unwind(std::panic::AssertUnwindSafe(f)) {
+    let was = IN_CATCH.with(|c| c.replace(true));
+    let r = std::panic::catch_unwind(std::panic::AssertUnwindSafe(f));
+    IN_CATCH.with(|c| c.set(was));
+    match r {
         Ok(v) => Ok(v),
         Err(e) => Err(if let Some(s) = e.downcast_ref::<&str>() {
             s.to_string()
@@ -35,7 +38,21 @@ pub fn catch<T>(f: impl FnOnce() -> T) -> Result<T, String> {
 /// Install a panic hook that prints nothing (the engines catch panics of the code under test and turn
 /// them into verdicts; the default hook would flood stderr).
 pub fn quiet_panics() {
-    std::panic::set_hook(Box::new(|_| {}));
+    if std::env::var("VERIF_LOUD").is_ok() {
+        return;
+    }
+    // panics of the code under test are caught and judged; a panic on the harness's own main thread
+    // outside a catch is a harness bug and must stay visible
+    let main_id = std::thread::current().id();
+    std::panic::set_hook(Box::new(move |info| {
+        if std::thread::current().id() == main_id && !IN_CATCH.with(|c| c.get()) {
+            eprintln!("harness panic (not a verdict): {info}");
+        }
+    }));
+}
+
+thread_local! {
+    static IN_CATCH: std::cell::Cell<bool> = std::cell::Cell::new(false);
 }
 
 /// FNV-1a, used only for outcome fingerprints (never for state identity).
